@@ -64,6 +64,7 @@ public:
 	size_t total_fed = 0, total_consumed = 0;
 	uint64_t calls = 0;
 	bool have_in = false;
+	guard::Place in_place = guard::END; // START: the chunk begins right after an inaccessible page (catches reads before next_in)
 
 	explicit Deflater(const DefOpts &opt) : o(opt) {
 		sbuf = guard::alloc(sizeof(struct isal_zstream), guard::END, "isal_zstream", 64, 0);
@@ -94,7 +95,7 @@ public:
 		pending.insert(pending.end(), add, add + add_len);
 		total_fed += add_len;
 		if (have_in) guard::retire(inb); // the previous mapping is gone: consumed input must never be touched again
-		inb = guard::alloc_copy(pending.data(), pending.size(), guard::END, "input chunk");
+		inb = guard::alloc_copy(pending.data(), pending.size(), in_place, "input chunk");
 		guard::set_readonly(inb);
 		have_in = true;
 		outb = guard::alloc(out_cap, guard::END, "output chunk");
@@ -158,6 +159,7 @@ public:
 	uint64_t calls = 0;
 	bool have_in = false;
 	int dict_rc = 0;
+	guard::Place in_place = guard::END;
 
 	explicit Inflater(const InfOpts &opt) : o(opt) {
 		sbuf = guard::alloc(sizeof(struct inflate_state), guard::END, "inflate_state", 64, 0);
@@ -179,7 +181,7 @@ public:
 		pending.insert(pending.end(), add, add + add_len);
 		total_fed += add_len;
 		if (have_in) guard::retire(inb);
-		inb = guard::alloc_copy(pending.data(), pending.size(), guard::END, "input chunk");
+		inb = guard::alloc_copy(pending.data(), pending.size(), in_place, "input chunk");
 		guard::set_readonly(inb);
 		have_in = true;
 		outb = guard::alloc(out_cap, guard::END, "output chunk");
